@@ -461,8 +461,16 @@ _POINT_KW = dict(material="m", adsorbate="N2", temperature=77, pressure_mode="ab
 KINDS = ("below", "first", "knot", "inside", "last")
 
 
-def make_data(p0z, n0z, zero_first, steps):
-    """steps: list of (ratio_z, inc_z, plateau) -> strictly increasing pressures, non-decreasing loadings."""
+def make_data(p0z, n0z, zero_first, steps, integral=False):
+    """steps: list of (ratio_z, inc_z, plateau) -> strictly increasing pressures, non-decreasing loadings.
+    integral: whole numbers handed over as python ints (the table then holds integer columns)."""
+    if integral:
+        P = [1 + int(9 * p0z)]
+        N = [0 if zero_first else 1 + int(20 * n0z)]
+        for rz, iz, flat in steps:
+            P.append(P[-1] + 1 + int(30 * rz))
+            N.append(N[-1] if flat else N[-1] + 1 + int(20 * iz))
+        return P, N
     P = [_r6(10.0 ** (-6 + 7 * p0z))]
     N = [0.0 if zero_first else _r6(10.0 ** (-3 + 4 * n0z))]
     for rz, iz, flat in steps:
@@ -479,7 +487,8 @@ def _data():
     step = st.tuples(st.floats(0, 1), st.floats(0, 1), st.sampled_from([False, False, False, False, True]))
     steps = st.one_of(st.lists(step, min_size=0, max_size=2), st.lists(step, min_size=3, max_size=12),
                       st.lists(step, min_size=13, max_size=39))
-    return st.builds(make_data, st.floats(0, 1), st.floats(0, 1), st.sampled_from([False] * 9 + [True]), steps)
+    return st.builds(make_data, st.floats(0, 1), st.floats(0, 1), st.sampled_from([False] * 9 + [True]), steps,
+                     st.sampled_from([False] * 4 + [True]))
 
 
 def _query():
@@ -580,6 +589,7 @@ def strat_point_value():
 def check_point_value(desc, ctx):
     P, N = desc["pressure"], desc["loading"]
     ctx.label(f"points_{'1' if len(P) == 1 else '2-5' if len(P) <= 5 else '6+'}")
+    ctx.label("integer_data" if all(isinstance(v, int) for v in P) else "float_data")
     if N[0] == 0:
         ctx.label("zero_first_loading")
     for q in desc["queries"]:
